@@ -521,7 +521,12 @@ def _feeds(F, body, du, seeds, start_blocks):
                 heads.add(nb)
     if not heads:
         return True, [catches[0][0]]
-    absent = _absent_edges(F, body, du, taint)
+    # only tests on the list itself (moves, `?`, Option/Result wrappers) make it absent; values merely computed
+    # next to it (the result of the interrupted built-in, say) do not
+    narrow = Q.forward_taint(body, seeds, through_calls=Q.PROPAGATING_CALLS + Q.AWAIT_CALLS + [
+        re.compile(r'^core::option::Option::<T>::(as_ref|as_mut|as_deref|as_deref_mut|copied|cloned|take)$'),
+        re.compile(r'^core::result::Result::<T, E>::(as_ref|as_mut|ok)$'), re.compile(r'Clone>::clone$')])
+    absent = _absent_edges(F, body, du, narrow)
     p = Q.must_pass(body, start_blocks, heads, removed_edges=absent)
     return True, p
 
@@ -846,3 +851,12 @@ def r9(cx):
     if not enabled <= disabled:
         cx.violation(DISABLE, 'not-all-reset', 'internal dispositions are enabled for %s but only %s are ever reset'
                      % (sorted(enabled), sorted(disabled)), loc=db[0].loc(db[0].d))
+
+
+# shared with C08 (the same clause serves both properties): on subshell entry only the action of an
+# existing record changes - in particular the Inherited origin of a signal that was ignored when the shell
+# started survives, so it stays untrappable in the subshell
+from rules.C08 import r3 as _c08_enter_subshell_tables
+from engine import Rule
+RS.rules.append(Rule('C11.R10', 'K-TABLE+K-GUARD', 'subshell entry touches only the action of a trap record (origin Inherited is preserved); '
+                     'reset/ignore tables as in C08.R3', _c08_enter_subshell_tables))
